@@ -99,6 +99,11 @@ class IdentityEliminationPass(ir.passes.InPlacePass):
         ):
             return False
 
+        # A graph output must be produced inside that graph: keep the node when the
+        # input is captured from an enclosing scope
+        if output_is_graph_output and input_value.graph is not graph_like:
+            return False
+
         # Copy over shape/type if the output has more complete information
         input_value.shape = _merge_shapes(input_value.shape, output_value.shape)
         if input_value.type is None:
